@@ -428,6 +428,13 @@ int __printf(void (*printchar_handler)(void *d, int c),
         if (*format == '*')
         {
             width = va_arg(args, int);
+            if (width < 0)
+            {
+                /* a negative field width argument is a '-' flag followed by a
+                 * positive field width */
+                ops |= OPS_FLAG_LEFT_ALIGN;
+                width = -width;
+            }
             ++format;
         }
         else
